@@ -65,6 +65,7 @@ def make_frame(r, n, kinds, subtypes, index_kind, derive):
         data[f"g{j}_{kind}"] = arr
     idx = {"default": None, "named": pd.Index([10 * i for i in range(n)], name="key"), "unnamed": pd.Index([f"r{i}" for i in range(n)]),
            "nonunique": pd.Index([i % 3 for i in range(n)], name="grp"),
+           "named_index": pd.Index([7 * i + 1 for i in range(n)], name="index"), "named_level": pd.Index([f"k{i}" for i in range(n)], name="level_0"),
            "hilbert": pd.Index(sorted(r.randint(0, 1000) for _ in range(n)), name="hilbert_distance")}[index_kind]
     return GeoDataFrame(data, index=idx)
 
@@ -193,7 +194,7 @@ def run_cases(chk, tier):
             # the same values in two different subtypes: both frames stay alive
             st_pair = [("float64", "float32"), ("int32", "int64"), ("float32", "float64"), ("int16", "int32"), ("int64", "float64")][k % 5]
             n = r.randint(1, 9) if k % 6 else 12
-            index_kind = ("default", "named", "unnamed", "nonunique", "hilbert")[k % 5]
+            index_kind = ("default", "named", "unnamed", "nonunique", "hilbert", "named_index", "named_level")[k % 7]
             derive = ("plain", "sliced", "concat")[k % 3]
             comp = ("snappy", "gzip", None)[k % 3]
             state = r.getstate()
